@@ -179,7 +179,7 @@ def _sparse(fmt, vals, rows, cols, shape):
     return m if fmt == 'coo' else getattr(m, 'to' + fmt)()
 
 
-def _make_comp(Tv, A, D, fmt, rs, cs, directional=False, mfree=None):
+def _make_comp(Tv, A, D, fmt, rs, cs, directional=False, mfree=None, curv=0.0):
     import openmdao.api as om
     ro, co = _blocks(rs, cs)
     r, c = Tv.shape
@@ -248,7 +248,7 @@ def _make_comp(Tv, A, D, fmt, rs, cs, directional=False, mfree=None):
 
         def compute(self, inputs, outputs):
             x = np.concatenate([inputs['x%d' % j] for j in range(len(cs))])
-            y = Tv.dot(x)
+            y = Tv.dot(x + curv * x * x)
             for i in range(len(rs)):
                 outputs['y%d' % i] = y[ro[i]:ro[i + 1]]
 
@@ -367,6 +367,14 @@ def run_partials(cfg):
     rs, cs = tuple(rs), tuple(cs)
     mfree = cfg.get('mfree', None)               # None | 'ok' | 'fwd_wrong' | 'rev_wrong'
     Tv = _tvals(T, pal)
+    # 'curv': a quadratic term makes the forward difference depend on the step, so every entry
+    # of a multi-step report can be told apart: y = Tv (x + curv x^2), J = Tv diag(1 + 2 curv x),
+    # forward quotient with step h = Tv diag(1 + curv (2 x + h))
+    curv = float(cfg.get('curv', 0.0))
+    xg = 0.5 + 0.25 * np.arange(c)
+    Tlin = Tv
+    if curv:
+        Tv = Tlin * (1.0 + 2.0 * curv * xg)[None, :]
     A = _analytic(Tv, D, akind, pal)
     # structural class used in signatures; the directional audit does not depend on D
     cls = ('%s+dir' % (fmt if mfree is None else 'mfree')) if directional else \
@@ -393,12 +401,14 @@ def run_partials(cfg):
         elif mfree == 'rev_wrong':
             Ar[pos[-1]] -= 0.75
         mf = (Af, Ar)
-    comp = _make_comp(Tv, A, D, fmt, rs, cs, directional=directional, mfree=mf)
+    comp = _make_comp(Tlin, A, D, fmt, rs, cs, directional=directional, mfree=mf, curv=curv)
     p = om.Problem(reports=None)
     p.model.add_subsystem('c', comp)
+    steps_used = None
     if method == 'fd':
         step = _FD_STEP if nsteps == 1 else [_FD_STEP, _FD_STEP2]
-        kw = {'method': 'fd', 'form': 'central', 'step': step}
+        kw = {'method': 'fd', 'form': 'forward' if curv else 'central', 'step': step}
+        steps_used = [step] if nsteps == 1 else list(step)
     else:
         kw = {'method': 'cs'}
         if nsteps == 2:
@@ -460,6 +470,9 @@ def run_partials(cfg):
                     expF = expF.dot(ones) if expF is not None else None
                     expFD = Tvb.dot(ones)
                     inD = np.ones((Tb.shape[0], 1), dtype=bool)
+            expFDs = [expFD] * nsteps
+            if curv and steps_used is not None and not directional:
+                expFDs = [(Tlin * (1.0 + curv * (2.0 * xg + h))[None, :])[sl] for h in steps_used]
             # ---- J_fwd / J_rev
             if mfree is not None and directional:
                 pass      # random directions: covered by the fwd/rev consistency numbers only
@@ -486,6 +499,7 @@ def run_partials(cfg):
             fds = []
             for k, Jk in enumerate(Jfd_list):
                 Jk = np.asarray(Jk, dtype=float)
+                expFD = expFDs[k]
                 if Jk.shape != expFD.shape:
                     V('J_fd', cls, 'pair %s J_fd[%d] shape %s expected %s' % (key, k, Jk.shape,
                                                                                expFD.shape))
@@ -505,6 +519,7 @@ def run_partials(cfg):
             # the reported J_fd may be 0 or the value: use the reported J_fd there.
             maxerr = 0.0
             for k, Jk in enumerate(fds):
+                expFD = expFDs[k]
                 REF = np.where(inD, expFD, Jk)
                 if expF is not None:
                     maxerr = max(maxerr, _check_errors(V, cls, d, k, 'forward', expF, REF, atol,
@@ -518,7 +533,7 @@ def run_partials(cfg):
                 mg = d.get('magnitude')
                 if nsteps > 1 or isinstance(mg, list):
                     mg = mg[k]
-                wantfd = max(float(np.abs(np.where(inD, expFD, fj)).max()) for fj in fds[:k + 1])
+                wantfd = float(np.abs(np.where(inD, expFDs[k], Jk)).max())
                 want = (float(np.abs(expF).max()) if expF is not None else 0.0,
                         float(np.abs(expR).max()) if expR is not None else 0.0, wantfd)
                 try:
@@ -728,6 +743,10 @@ def _one_T(kind, shape, tb, pal, tier, add):
                     add(run_partials(dict(b0, fmt=fmt, akind=ak)))
                 add(run_partials(dict(b0, fmt=fmt, method='cs')))
                 add(run_partials(dict(b0, fmt=fmt, nsteps=2)))
+                # step-dependent forward differences (quadratic term): one and two steps
+                add(run_partials(dict(b0, fmt=fmt, curv=0.5)))
+                add(run_partials(dict(b0, fmt=fmt, curv=0.5, nsteps=2)))
+                add(run_partials(dict(b0, fmt=fmt, curv=0.5, nsteps=2, akind='wrong1')))
                 add(run_partials(dict(b0, fmt=fmt, tols=(2.0 ** -6, 0.125))))
                 add(run_partials(dict(b0, fmt=fmt, directional=True)))
                 add(run_partials(dict(b0, fmt=fmt, print='full')))
